@@ -98,6 +98,7 @@ def run(ctx):
     chosen = regression() + scs
     s, nlines = drive_and_judge(ctx, chosen, sweep=2 if quick else 12, variants="all",
                                 shards=6 if quick else 14, allprobes=not quick)
+    ctx.cov["lifecycle_rider"] = rider_lifecycle(ctx)
     ctx.cov.update(dict(
         states=states, transitions=trans, traces_validated_against_impl=s["runs"], samples=s["samples"][:2], model_runs=consts,
         scenarios_emitted=emitted, scenarios_replayed=s["scenarios"], reconciles=s["reconciles"], sweep_runs=s["sweep_runs"],
@@ -135,9 +136,38 @@ def run_composed(ctx, n=1500):
     return s
 
 
+# The admission webhook and the reconciler's bookkeeping beyond this check's own model (delete requests with every
+# propagation policy and as dry runs, webhook client faults, unresolved selectors, replayed deletions, re-created
+# resources): module UsageLifecycle (check X10), on the real handler behind the objectSelector of usage.yaml.
+RIDER_FORMULAS = ["Webhook.NonDelete", "Webhook.Scope", "Webhook.Reached", "Webhook.Deny", "Webhook.FailClosed", "Webhook.Deny.Panic",
+                  "Webhook.Recorded", "Webhook.Recorded.Panic", "Webhook.Allow", "Webhook.OnlyAnnotation", "DryRun.NoEffect",
+                  "Finalizer.BeforeLabel", "Used.OnlyLabel", "Used.OnlyNamed", "Ready.Needs", "Delete.Order"]
+
+
+def rider_lifecycle(ctx):
+    from checks import x10
+    sub = ctx.sub("usagelifecycle")
+    scs, st, tr = [], 0, 0
+    for name, n in ([("quick_hook", 350), ("quick_del", 250), ("quick_replay", 200)] if ctx.quick else [("thorough_hook", 5000), ("quick_hook", 4000), ("quick_del", 4000), ("quick_replay", 4000)]):
+        mc = sub.model_check(x10.MODULE, "%s_%s.cfg" % (x10.MODULE, name), sub="mc_" + name, workers=4, timeout=1500)
+        scs += [{"id": "%s-ul-%s-%07d" % (PID, name, i), "hist": h, "rider": "usagelifecycle"} for i, h in sub.sample_lines(mc["emitted_file"], n, mc["emitted"])]
+        st += mc["states"]
+        tr += mc["transitions"]
+    s, n, _ = x10.drive_and_judge(sub, scs, sweep=0, shards=4 if ctx.quick else 8, counts=False)
+    for v in sub.violations:
+        if v["formula"] in RIDER_FORMULAS:
+            ctx.violations.append(v)
+    return dict(states=st, transitions=tr, runs=s.get("runs"), events=n, formulas=RIDER_FORMULAS)
+
+
 def replay(ctx, path):
     with open(path) as f:
         sc = json.load(f)
+    if sc.get("rider") == "usagelifecycle":
+        from checks import x10
+        x10.replay(ctx, path)
+        ctx.violations = [v for v in ctx.violations if v["formula"] in RIDER_FORMULAS]
+        return
     if "variant" not in sc and "sweep" not in sc:
         sc["variant"] = "error"
     s, nlines = drive_and_judge(ctx, [sc], shards=1, allprobes=True)
